@@ -20,7 +20,7 @@ Proof.
   cbn [nrange seq map]. rewrite IH. f_equal; [lia|]. f_equal. f_equal. lia.
 Qed.
 Lemma nrange_nseq n : nrange 0 (N.to_nat n) = nseq n.
-Proof. rewrite nrange_seq. reflexivity. Qed.
+Proof. rewrite nrange_seq, nseq_unfold. reflexivity. Qed.
 Lemma nrange_length : forall m pos, length (nrange pos m) = m.
 Proof. induction m as [|m IH]; intro pos; cbn [nrange length]; [reflexivity | rewrite IH; reflexivity]. Qed.
 Lemma nrange_In : forall m pos x, In x (nrange pos m) -> pos <= x < pos + N.of_nat m.
@@ -215,10 +215,10 @@ Proof.
   f_equal. f_equal. f_equal.
   pose proof (bits_of_length_nat bv Hwf) as Hl.
   apply nth_ext with (d := None) (d' := None).
-  - rewrite !map_length. unfold nseq. rewrite map_length, seq_length. lia.
-  - intros i Hi. rewrite map_length in Hi. unfold nseq in Hi. rewrite map_length, seq_length in Hi.
-    rewrite (nth_indep _ None (BitSpec.access (bits_of bv) 0)) by (rewrite map_length; unfold nseq; rewrite map_length, seq_length; exact Hi).
-    rewrite map_nth. unfold nseq. rewrite (nth_indep _ 0 (N.of_nat 0)) by (rewrite map_length, seq_length; exact Hi).
+  - rewrite !map_length. rewrite ?nseq_unfold. rewrite map_length, seq_length. lia.
+  - intros i Hi. rewrite map_length in Hi. rewrite ?nseq_unfold in Hi. rewrite map_length, seq_length in Hi.
+    rewrite (nth_indep _ None (BitSpec.access (bits_of bv) 0)) by (rewrite map_length; rewrite ?nseq_unfold; rewrite map_length, seq_length; exact Hi).
+    rewrite map_nth. rewrite ?nseq_unfold. rewrite (nth_indep _ 0 (N.of_nat 0)) by (rewrite map_length, seq_length; exact Hi).
     rewrite map_nth, seq_nth by exact Hi. cbn [Nat.add].
     unfold BitSpec.access. rewrite bits_of_length by exact Hwf.
     destruct (N.ltb_spec (N.of_nat i) (bv_len bv)) as [_|Hx]; [|lia].
